@@ -974,7 +974,9 @@ class MCrash(Monitor):
                 continue
             if self.preserve and arn in self.expect and self.expect[arn].get("status"):
                 ex = self.expect[arn]
-                st, out, err = ts[-1]
+                # (a crash inside a handler can leave a duplicate of an event behind, whose late handling may end the execution again -
+                # C02's subject and a known finding; such scenarios are judged on the first terminal outcome)
+                st, out, err = ts[0] if w.sc.get("judge_first_terminal") else ts[-1]
                 ok = st == ex["status"]
                 if ok and st == "SUCCEEDED":
                     try:
